@@ -13,7 +13,7 @@ LEVEL = "proof"
 MANIFEST_ENTRY = {
     "category": "proof",
     "text": "Lean 4 theorems at ℝ about the *translated* aberration code (Python ast → Lean on every run): the polar series equals the spec χ=(2π/λ)Σ α^{n+1}/(n+1)·C_nm cos(m(φ−φ_nm)) over the 14-entry (n,m) table covering all 25 symbols; Σ cart_l·basis_l = χ with cart = polar_to_cartesian(polar); Cartesian→polar→Cartesian is the identity on all 25 labels and polar→Cartesian→polar returns the coefficients for C>0, mφ∈(−π,π] (otherwise still the identical surface); merge adds the deltas' basis expansion; dchi_dk = λ·∂χ/∂α, α·dchi_dphi = λ·∂χ/∂φ (HasDerivAt), and — chain rule through the source's own polar coordinates k=sqrt(x²+y²), φ=atan2(y,x), branch cut handled by 2π-periodicity — (dchi_dx, dchi_dy) = λ·∇_{x,y}χ at every point but the origin; guard blocks vanish when their keys are 0; 'defocus' ↦ C10 = −defocus in all three alias implementations for every input dict (induction over the dict) and other aliases carry no sign; fit round trip END TO END on the model: lateral shifts of a quadratic coefficient set are basis@(R_{−θ}·A) at every pixel, a full-column-rank basis has non-zero Gram determinant so the normal equations recover the matrix exactly, the polar decomposition of a real 2×2 matrix is unique (closed form polar2 returns the factors of ANY M=U·P with UᵀU=1, P symmetric positive definite), and the extraction (wrap/sign-flip branch included) returns (C10,C12,φ12,θ) for |θ|<π/2, |C10|>C12>0, φ12∈(−π/2,π/2]. Float correspondence of every generated definition, the alias models and the fit model against the real torch code; autograd/consistency predicates on the real code as failing-input search.",
-    "note": "Trusted: Lean kernel + propext/Classical.choice/Quot.sound; the translator (validated by the correspondence on the same functions); IEEE rounding and torch are outside the theorems. Measured only (fit stream): that torch.linalg.lstsq solves the least-squares problem and that torch.linalg.svd returns a correct SVD (then _torch_polar is a polar decomposition and polar_decomposition_unique makes it equal to the model's closed form); fit_roundtrip is about lstsq2 (normal equations) and polar2. The remainder() in the fit is modelled on [−2π,4π) only (the reachable range). Labels outside the 25-label table (e.g. 'C77_a') are outside the model. The gradient theorems are partial derivatives along x and y (HasDerivAt), not a joint Fréchet derivative.",
+    "note": "Trusted: Lean kernel + propext/Classical.choice/Quot.sound; the translator (validated by the correspondence on the same functions); IEEE rounding and torch are outside the theorems. Measured only (fit stream): that torch.linalg.lstsq solves the least-squares problem and that torch.linalg.svd returns a correct SVD (then _torch_polar is a polar decomposition and polar_decomposition_unique makes it equal to the model's closed form); fit_roundtrip is about lstsq2 (normal equations) and polar2. Labels outside the 25-label table (e.g. 'C77_a') are outside the model. The gradient theorems are partial derivatives along x and y (HasDerivAt), not a joint Fréchet derivative.",
     "technique": "Lean 4 proof over translator output (Python ast → Lean, regenerated every run) + model-vs-implementation Float correspondence + autograd/consistency predicates on the real code",
 }
 RULE = ("a case is one coefficient set evaluated at several (α,φ) points (formula stream), one input dict for one alias "
@@ -24,7 +24,7 @@ TRUSTED = ["harness/translator/aberr2lean.py (partial evaluator, grammar in its 
            "torch elementwise kernels, torch.linalg.lstsq/svd, torch autograd (the gradient oracle of the failing-input search)"]
 ASSUMPTIONS = ["float `1/3`, `0.5`, … in the source are read as exact rationals in the ℝ theorems (IEEE rounding is measured, not proved)",
                "`if any(k in coefs …)` guards are emitted unguarded; sound because the translator checks that a guarded body reads only guard keys with default 0 and `guard_sound` proves each body is 0 at 0",
-               "remainder(x, 2π) in fit_aberrations_from_shifts is modelled on [-2π, 4π) only (|rotation| ≤ π always holds)",
+               "remainder(x, 2π) in fit_aberrations_from_shifts is modelled on [-2π, 4π) only; remainder_model_exact proves the model equals x−⌊x/y⌋y there and that both call sites stay inside that range",
                "_torch_polar (SVD route) is modelled by the closed form P=√(MᵀM), U=MP⁻¹ for non-singular M; polar_decomposition_unique proves any correct polar decomposition equals it, correctness of torch.linalg.svd is measured",
                "torch.linalg.lstsq is modelled by the normal equations (lstsq_exact: exact for a full-column-rank basis); agreement is measured",
                "ProbeBase.probe_params setter and DirectPtychography._return_lateral_shifts are called on attribute stubs (the real function objects, no dataset needed)",
